@@ -270,12 +270,21 @@ def complete(ctx):
     if hg is not None and R.anchor(gt, "head-compare", "comparison of the peer's head with ours"):
         c = gt[0]
         tail_push = [p for p in pushes if b.dominates(c.bb, p.bb) or b.dominates(hg.bb, p.bb)]
-        te, fe = flow.true_false_targets(b, c)
-        ahead = te if c.name() in ("gt", "lt", "ge", "le") else []
-        ok = bool(ahead) and bool(tail_push)
-        for (u, v) in ahead:
-            if hn.bb in flow.variant_reach(b, v, no_nodes=tuple(p.bb for p in tail_push)):
-                ok = False
+        # the comparison decides: one outcome forces the tail push on every path back to the heads loop (as a branch, or
+        # handed to bool::then), the other allows skipping it; and the forcing outcome is the one meaning `peer head > ours`
+        tgt = b.term(c.bb).get("tgt")
+        forced = [v for v in (True, False) if tgt is not None and tail_push and
+                  hn.bb not in flow.variant_reach(b, tgt, no_nodes=tuple(p.bb for p in tail_push), assume={c.dest[0]: v})]
+        ok = len(forced) == 1
+        if ok:
+            a0 = cm.deep_arg_fields(b, op_place(c.args[0]), (c.bb, "T")) if op_place(c.args[0]) is not None else set()
+            a1 = cm.deep_arg_fields(b, op_place(c.args[1]), (c.bb, "T")) if op_place(c.args[1]) is not None else set()
+            peer_first = any(x.startswith("arg2.heads") for x in a0) and any(x.startswith("arg1.heads") for x in a1)
+            ours_first = any(x.startswith("arg1.heads") for x in a0) and any(x.startswith("arg2.heads") for x in a1)
+            greater = c.name() in ("gt", "ge")
+            # truth value of the call that means "peer is ahead"
+            means_ahead = (greater if peer_first else (not greater)) if (peer_first or ours_first) else None
+            ok = means_ahead is not None and forced[0] == means_ahead
         R.require(ok, "ahead-pushes", c.where(), "when the head comparison succeeds the missing tail is pushed",
                   fail_msg="the peer's head is ahead of ours but a path returns to the heads loop without pushing the tail")
         # unknown actor: None edge of self.heads.get -> push
